@@ -1038,3 +1038,10 @@ class Gate:
 
 
 PARTS = [Check, Gate]
+
+
+# source tie (integrator): check_valid / get_valid_classes / get_multiplicity (on raw content) are TRANSLATED from the
+# Python AST on every run (tools/tables/t_src_valid.py) and Content.Model is proved equal to the translation (Props/SRCvalid.v)
+COQ_PROPS = (list(COQ_PROPS) if isinstance(COQ_PROPS, (list, tuple)) else [COQ_PROPS]) + ['Props/SRCvalid.v']
+THEOREMS = list(THEOREMS) + ['SRC_check_valid', 'SRC_multiplicity_dyn', 'SRC_valid_classes_dyn']
+TABLES = sorted(set(list(globals().get('TABLES') or []) + ['t_src_valid', 't_content'])) if globals().get('TABLES') else None
